@@ -22,6 +22,7 @@ type Frame struct {
 	u        *Unit
 	fn       *ssa.Function
 	contract *Contract
+	curFn    Val // function value of the field call being applied (fnval in field contracts)
 	vals     map[ssa.Value]Val
 	endCur   map[int]string // path condition at end of block
 	endHeap  map[int]*Heap
